@@ -3,9 +3,12 @@ FILE = 'scales/loadbalancer/base.py'
 
 CLASSES = {
   'LoadBalancerSink': dict(path='LoadBalancerSink', bases=['ClientMessageSink'], fields={
-    '_servers': 'dict[any,fn]', '_state': 'int', '_endpoint_name': 'any',
+    '_servers': 'dict[any,ChannelFactory]', '_state': 'int', '_endpoint_name': 'any',
     '__init_done': 'Event', '__open_ar': 'AsyncResult?', '_properties': 'any',
-    '_next_sink_provider': 'any', '_server_set_provider': 'any'}),
+    '_next_sink_provider': 'NextProvider', '_server_set_provider': 'ServerSetProviderX', '_open_greenlet': 'any'}),
+  'ServerSetProviderX': dict(extern=True, path=None, fields={}, bases=[]),
+  # a server-set member as the balancer reads it
+  'SetMember': dict(extern=True, path=None, fields={'service_endpoint': 'any', 'additional_endpoints': 'dict[any,any]'}, bases=[]),
   'Event': dict(extern=True, path=None, fields={'flag': 'bool'}, bases=[]),
 }
 FUNCTIONS = {
@@ -43,3 +46,151 @@ EXTERNS = {
   'AsyncResult.rawlink': dict(params=[('callback', 'any')], modifies=['AsyncResult.g_links'],
                               ensures=['self.g_links == old(self.g_links) + 1', 'forall_ref(a, AsyncResult, implies(a != self, a.g_links == old(a.g_links)), a.g_links)'], notes='registers a completion callback; gevent runs it once, later, in registration order (assumed)'),
 }
+
+# ----------------------------------------------------------------------------------------------------------------
+# C05: balancer membership == server set.  The base-class join/leave handlers are verified once per balancer kind,
+# with `self` typed as that subclass (same source text, `cls=` differs), so that the overridable hook
+# _OnServersChanged -> _AddSink/_RemoveSink resolves to the subclass's own contract.
+PREDICATES = {
+  # the endpoint a member is known by (LoadBalancerSink.__GetEndpoint)
+  'ep_of': (['s', 'm'], 'ite(truthy(s._endpoint_name), m.additional_endpoints[s._endpoint_name], m.service_endpoint)'),
+  'ep_ok': (['s', 'm'], 'allocated(m) and allocated(m.additional_endpoints) and '
+                        'ite(truthy(s._endpoint_name), has_key(m.additional_endpoints, s._endpoint_name) and truthy(m.additional_endpoints[s._endpoint_name]), True)'),
+}
+
+_MEM_MOD = ['dict[any,ChannelFactory]', 'dict[any,Node]', 'Node.load', 'Node.index', 'Node.downq', 'Node.avg_load', 'Node.channel', 'Node.endpoint',
+            'Node.g_out', 'Node.g_inq', 'list[Node]', 'HeapBalancerSink._size', 'HeapBalancerSink.g_added', 'HeapBalancerSink.g_removed',
+            'Channel.state', 'Channel.g_closes', '$cls']
+
+FUNCTIONS.update({
+  'LoadBalancerSink.__GetEndpoint': dict(cls='LoadBalancerSink', inline=True),
+  'HeapBalancerSink._OnServersChanged': dict(cls='HeapBalancerSink', file='scales/loadbalancer/heap.py', inline=True),
+
+  # join: a new endpoint becomes a member and a dispatch target in the same step; a known one changes nothing
+  'LoadBalancerSink.__AddServer': dict(
+    cls='HeapBalancerSink', params={'instance': 'SetMember'}, aspect='mem',
+    requires=['HeapMem(self)', 'allocated(instance)', 'allocated(instance.additional_endpoints)', 'instance.service_endpoint is not None'],
+    ensures=['HeapMem(self)', 'ep_ok(self, instance)',
+             'has_key(self._servers, ep_of(self, instance))',
+             'forall(e, "any", implies(e != ep_of(self, instance), has_key(self._servers, e) == old(has_key(self._servers, e))))'],
+    raises={'ValueError': dict(when='not ep_ok(self, instance)', ensures=['HeapMem(self)', 'forall(e, "any", has_key(self._servers, e) == old(has_key(self._servers, e)))'])},
+    locals={'channel_factory': 'ChannelFactory'},
+    modifies=_MEM_MOD, allocates='any', drop=['_properties', 'new_props'],
+    ghost=[
+      {'after': 'self._OnServersChanged(ep, channel_factory, True)', 'do': ['self.g_node[ep] = self.g_added']},
+      {'before': 'self._OnServersChanged(ep, channel_factory, True)', 'do': [
+        'prove(forall_ref(r, Node, implies(inheap(self._heap, r), r.endpoint != ep), r.index), "a-joining-endpoint-is-not-yet-a-target")']},
+    ],
+    props=['C05'],
+  ),
+  # leave: the endpoint stops being a member and a dispatch target in the same step; an unknown one changes nothing
+  'LoadBalancerSink.__RemoveServer': dict(
+    cls='HeapBalancerSink', params={'instance': 'SetMember'}, aspect='mem',
+    requires=['HeapMem(self)', 'allocated(instance)', 'allocated(instance.additional_endpoints)'],
+    ensures=['HeapMem(self)', 'ep_ok(self, instance)',
+             'not has_key(self._servers, ep_of(self, instance))',
+             'forall(e, "any", implies(e != ep_of(self, instance), has_key(self._servers, e) == old(has_key(self._servers, e))))'],
+    raises={'ValueError': dict(when='not ep_ok(self, instance)', ensures=['HeapMem(self)', 'forall(e, "any", has_key(self._servers, e) == old(has_key(self._servers, e)))'])},
+    modifies=_MEM_MOD, allocates='any',
+    ghost=[
+      {'after': 'self._OnServersChanged(ep, channel_factory, False)', 'do': ['self.g_node.pop(ep, None)']},
+    ],
+    props=['C05'],
+  ),
+})
+
+EXTERNS.update({
+})
+
+# join / leave notifications are delivered by the server set's greenlet; they block on the init-done event, i.e. they
+# are scheduling points: while a notification waits the shared state may change arbitrarily within the invariant.
+CONCURRENCY = {
+  'Members': dict(
+    state=_MEM_MOD + ['Event.flag', 'LoadBalancerSink._servers', 'HeapBalancerSink._downq', 'Node.g_rank'],
+    invariant=['HeapMem(self)'],
+    guarantee=[],
+  ),
+  # what notification handlers guarantee to the loader: they never touch the event, and change nothing while it is unset
+  'MembersLoading': dict(
+    state=_MEM_MOD + ['Event.flag', 'LoadBalancerSink._servers', 'HeapBalancerSink._downq', 'Node.g_rank'],
+    invariant=['HeapMem(self)'],
+    guarantee=['self.__init_done.flag == old(self.__init_done.flag)',
+               'implies(not old(self.__init_done.flag), self._size == old(self._size) and self._servers == old(self._servers))'],
+  ),
+}
+
+FUNCTIONS.update({
+  # a join that arrives while the initial list is being loaded blocks until loading is complete (the event is set
+  # only after the initial members are installed: _OpenImpl below), then adds the member unless already present
+  'LoadBalancerSink.__OnServerSetJoin': dict(
+    cls='HeapBalancerSink', params={'instance': 'SetMember'}, aspect='mem', conc='Members', guar=['MembersLoading'],
+    requires=['allocated(instance)', 'allocated(instance.additional_endpoints)', 'instance.service_endpoint is not None', 'allocated(self.__init_done)'],
+    ensures=['implies(ep_ok(self, instance), has_key(self._servers, ep_of(self, instance)))'],
+    raises={'ValueError': dict(when='not ep_ok(self, instance)')},
+    modifies=_MEM_MOD, allocates='any',
+    yields=[{'at': 'self.__init_done.wait()'}],
+    ghost=[
+      {'after': 'self.__init_done.wait()', 'do': ['prove(self.__init_done.flag, "takes-effect-only-after-the-initial-load")', 'g_s0 = self._size']},
+    ],
+    props=['C05'],
+  ),
+  'LoadBalancerSink.__OnServerSetLeave': dict(
+    cls='HeapBalancerSink', params={'instance': 'SetMember'}, aspect='mem', conc='Members', guar=['MembersLoading'],
+    requires=['allocated(instance)', 'allocated(instance.additional_endpoints)', 'allocated(self.__init_done)'],
+    ensures=['implies(ep_ok(self, instance), not has_key(self._servers, ep_of(self, instance)))'],
+    raises={'ValueError': dict(when='not ep_ok(self, instance)')},
+    modifies=_MEM_MOD, allocates='any',
+    yields=[{'at': 'self.__init_done.wait()'}],
+    ghost=[
+      {'after': 'self.__init_done.wait()', 'do': ['prove(self.__init_done.flag, "takes-effect-only-after-the-initial-load")']},
+    ],
+    props=['C05'],
+  ),
+})
+
+PREDICATES.update({
+  'member_ok': (['m'], 'allocated(m) and allocated(m.additional_endpoints) and m.service_endpoint is not None'),
+})
+
+FUNCTIONS.update({
+  # the open sequence: load the initial member list, and only then let queued notifications through
+  'LoadBalancerSink._OpenImpl': dict(
+    cls='HeapBalancerSink', returns='bool?', aspect='mem', conc='MembersLoading', guar=['Members'],
+    locals={'server_set': 'list[SetMember]'},
+    requires=['allocated(self.__init_done)', 'not self.__init_done.flag', 'self._size == 0'],
+    ensures=['implies(result is not None, self.__init_done.flag)'],
+    raises={'ValueError': dict()},
+    modifies=_MEM_MOD + ['Event.flag', 'LoadBalancerSink._servers', 'LoadBalancerSink._state', 'LoadBalancerSink._open_greenlet', 'HeapBalancerSink._open',
+                         'list[SetMember]', 'Channel.g_opens', 'HeapBalancerSink._downq', 'Node.g_rank'],
+    allocates='any',
+    yields=[{'at': 'gevent.sleep(5)'}, {'at': 'self._server_set_provider.Initialize('}, {'at': 'self._server_set_provider.GetServers()'}],
+    loops={
+      0: dict(invariant=['HeapMem(self)', 'not self.__init_done.flag', 'self._size == 0', 'allocated(self.__init_done)'],
+              modifies=_MEM_MOD + ['Event.flag', 'LoadBalancerSink._servers', 'LoadBalancerSink._state', 'list[SetMember]', 'HeapBalancerSink._downq', 'Node.g_rank'], allocates='any'),
+      1: dict(invariant=['HeapMem(self)', 'not self.__init_done.flag', 'allocated(self.__init_done)', 'allocated(server_set)',
+                         'forall(k, 0, len(server_set), member_ok(server_set[k]))',
+                         'forall(k, 0, _i1, has_key(self._servers, ep_of(self, server_set[k])))'],
+              modifies=_MEM_MOD, allocates='any'),
+    },
+    ghost=[
+      {'before': 'self.__init_done.set()', 'do': [
+        'prove(forall(k, 0, len(server_set), has_key(self._servers, ep_of(self, server_set[k]))), "initial-members-installed-before-notifications-pass")']},
+    ],
+    props=['C05'],
+  ),
+  'HeapBalancerSink._OpenInitialChannels': dict(
+    file='scales/loadbalancer/heap.py', cls='HeapBalancerSink', requires=[], ensures=['self._open'],
+    modifies=['HeapBalancerSink._open', 'Channel.g_opens'], allocates=True, trusted=True,
+    notes='sets _open and starts opening every member channel (WhenAny over a list comprehension of _OpenNode): assumed to change no membership state',
+  ),
+})
+
+EXTERNS.update({
+  'ServerSetProviderX.Initialize': dict(params=[('on_join', 'any'), ('on_leave', 'any')], may_raise=['Exception', 'GreenletExit'], yields=True,
+                                        notes='registers the two callbacks; notifications are delivered later, serially, by the provider'),
+  'ServerSetProviderX.GetServers': dict(params=[], returns='list[SetMember]', fresh=True, allocates=True, may_raise=['Exception', 'GreenletExit'], yields=True,
+                                        ensures=['result is not None', 'forall(k, 0, len(result), member_ok(result[k]))']),
+  'random.shuffle': dict(params=[('l', 'list[SetMember]')], modifies=['list[SetMember].items'],
+                         ensures=['len(l) == old(len(l))', 'forall(k, 0, len(l), exists(j, 0, len(l), l[k] == old(l[j])))'],
+                         notes='a permutation of the list'),
+})
